@@ -11,7 +11,7 @@ from ..core import q, qs, guarded, same, unq
 ALPHABET = [-1.0, 0.0, 1.0, 2.0, 3.0]
 SCALE = 1000.0          # lattice symbols are multiplied by this (wavelengths 1000, 2000, 3000 Angstrom)
 WAVE_ERRS = ('ZeroWavelength', 'UnsortedWavelength', 'DuplicateWavelength')
-UNITS = ['AA_number', 'AA', 'nm', 'micron', 'm', 'Hz', 'THz', '1/micron', '1/cm']
+UNITS = ['AA_number', 'AA', 'nm', 'micron', 'm', 'cm', 'km', 'Hz', 'THz', '1/micron', '1/cm']
 C = float(O.C)
 
 
@@ -92,7 +92,7 @@ def to_unit(vals_aa, unit):
         return a
     if unit == 'AA':
         return a * u.AA
-    if unit in ('nm', 'micron', 'm'):
+    if unit in ('nm', 'micron', 'm', 'cm', 'km'):
         return (a * u.AA).to(u.Unit(unit))
     if unit == 'Hz':
         return (C / a) * u.Hz
@@ -254,12 +254,21 @@ def gen_equivariance(rng, count):
     for _ in range(count):
         n = rng.randint(3, 8)
         w = sorted({float(O.dy(rng, 900, 3900, 0)) for _ in range(n)})
+        if rng.random() < 0.25:
+            # finely sampled: neighbours 2^-4 .. 2^-10 Angstrom apart (still > 1e6 ulp apart in every unit)
+            w0, dw = float(O.dy(rng, 900, 3900, 0)), 2.0 ** -rng.randint(4, 10)
+            w = [w0 + i * dw for i in range(n)]
         if len(w) < 3:
             continue
         entry = rng.choice(names)
         if entry == 'observation.sample_binned':
             w = sorted(rng.sample([1000., 1500., 2000., 2500., 3000.], rng.randint(2, 5)))
-        units = ['AA_number'] + rng.sample(UNITS[1:5] if entry == 'binning.calculate_bin_edges' else UNITS[1:], 3)
+        units = ['AA_number'] + rng.sample(UNITS[1:7] if entry == 'binning.calculate_bin_edges' else UNITS[1:], 3)
+        if entry == 'observation.sample_binned':
+            # binned samples exist only exactly at the bin centres: keep the units whose round trip to Angstrom is exact
+            import astropy.units as u
+            units = [x for x in units if x == 'AA_number' or
+                     np.array_equal(to_unit(w, x).to(u.AA, u.spectral()).value, np.asarray(w))]
         out.append({'op': 'equivariance', 'entry': entry, 'w': qs(w), 'units': units})
     return out
 
@@ -289,7 +298,7 @@ def run(rep):
     rep.rule = ('rejection half, exhaustive: all arrays of length 1..4 over {-1000, 0, 1000, 2000, 3000} x every public entry point with a '
                 'sampling-wavelength argument (%d of them), plus the same arrays in other wavelength units / as scalars (sampled) and '
                 'Quantities in units that are no wavelength; equivariance half: each entry point on random valid grids in Angstrom numbers '
-                'and three of {AA, nm, micron, m, Hz, THz, 1/micron, 1/cm} x ascending/descending, compared pairwise. '
+                'and three of {AA, nm, micron, m, cm, km, Hz, THz, 1/micron, 1/cm} x ascending/descending, compared pairwise; a quarter of the grids finely sampled (2^-4 .. 2^-10 Angstrom spacing). '
                 'Non-trivial: the array is invalid (must be rejected) or the operation returned a value in every unit and order.' % len(entry_points_names()))
 
     def tags(c, o):
